@@ -17,7 +17,7 @@ def race_engine(tier, seed, BUILD, ROOT, GOENV):
     k, rounds = (6, 40) if tier == "quick" else (12, 150)
     samples = []
     for s in seeds:
-        for sc in ("normal", "peerdrop", "kafail"):
+        for sc in ("normal", "peerdrop", "kafail", "badresp"):
             op = "racerun %s %d %d %d" % (sc, k, rounds, s)
             env = dict(GOENV, GORACE="halt_on_error=0 history_size=3")
             t0 = time.time()
@@ -46,5 +46,5 @@ def race_engine(tier, seed, BUILD, ROOT, GOENV):
     out["stats"] = {"evaluations": len(runs), "distinct_nontrivial": len(runs),
                     "op_kinds": {"racerun": len(runs)}}
     out["coverage"] = {"samples": samples[:3], "race_detector_runs": len(runs),
-                       "race_workload": "Watch + EnquireLink + %d submitting goroutines x %d rounds + consumer answering with Resp() + Close; scenarios normal / peer drops the link with requests in flight / keep-alive fails while the application closes" % (k, rounds)}
+                       "race_workload": "Watch + EnquireLink + %d submitting goroutines x %d rounds + consumer answering with Resp() + Close; scenarios normal (ReadTimeout shorter than a keep-alive round) / peer drops the link with requests in flight / keep-alive fails while the application closes / every third response undecodable" % (k, rounds)}
     return out
